@@ -910,6 +910,92 @@ fn recorded_txs() -> Vec<RecordedTx> {
     }
     out
 }
+struct BuiltTx { name: String, tx: Vec<u8>, utxos: Vec<uplc::tx::script_context::ResolvedInput>, lang: u8, direct: Vec<(Vec<u8>, usize)>, must_fail: bool }
+fn built_txs() -> Vec<BuiltTx> {
+    use pallas_codec::utils::{Bytes, CborWrap, MaybeIndefArray, NonEmptyKeyValuePairs, NonEmptySet, Nullable, Set};
+    use pallas_primitives::{conway::{DatumOption, ExUnits, NonZeroInt, PlutusScript, PostAlonzoTransactionOutput, Redeemer, RedeemerTag, Redeemers, TransactionBody, TransactionInput, TransactionOutput, Tx, Value as PValue, WitnessSet}, Fragment};
+    use pallas_traverse::ComputeHash;
+    use uplc::{ast::Data, tx::script_context::ResolvedInput};
+    let compile = |src: &str| -> Vec<u8> { let p: Program<DeBruijn> = uplc::parser::program(src).unwrap().try_into().unwrap(); p.to_cbor().unwrap() };
+    let body0 = || TransactionBody { inputs: Set::from(vec![]), outputs: vec![], fee: 0, ttl: None, certificates: None, withdrawals: None, auxiliary_data_hash: None, validity_interval_start: None, mint: None, script_data_hash: None, collateral: None, required_signers: None, network_id: None, collateral_return: None, total_collateral: None, reference_inputs: None, voting_procedures: None, proposal_procedures: None, treasury_value: None, donation: None };
+    let wit0 = || WitnessSet { vkeywitness: None, native_script: None, bootstrap_witness: None, plutus_v1_script: None, plutus_data: None, redeemer: None, plutus_v2_script: None, plutus_v3_script: None };
+    let key_out = |lovelace: u64| { let mut a = vec![0x60]; a.extend([0x11; 28]); TransactionOutput::PostAlonzo(PostAlonzoTransactionOutput { address: Bytes::from(a), value: PValue::Coin(lovelace), datum_option: None, script_ref: None }) };
+    let oref = |ix: u64| TransactionInput { transaction_id: [0xaa; 32].into(), index: ix };
+    let hash_of = |lang: u8, code: &Vec<u8>| -> pallas_primitives::Hash<28> { match lang { 1 => PlutusScript::<1>(Bytes::from(code.clone())).compute_hash(), 2 => PlutusScript::<2>(Bytes::from(code.clone())).compute_hash(), _ => PlutusScript::<3>(Bytes::from(code.clone())).compute_hash() } };
+    let put_scripts = |w: &mut WitnessSet, lang: u8, codes: &[Vec<u8>]| { match lang {
+        1 => w.plutus_v1_script = NonEmptySet::from_vec(codes.iter().map(|c| PlutusScript::<1>(Bytes::from(c.clone()))).collect()),
+        2 => w.plutus_v2_script = NonEmptySet::from_vec(codes.iter().map(|c| PlutusScript::<2>(Bytes::from(c.clone()))).collect()),
+        _ => w.plutus_v3_script = NonEmptySet::from_vec(codes.iter().map(|c| PlutusScript::<3>(Bytes::from(c.clone()))).collect()),
+    } };
+    let finish = |body: TransactionBody, w: WitnessSet| -> Vec<u8> { Tx { transaction_body: body, transaction_witness_set: w, success: true, auxiliary_data: Nullable::Null }.encode_fragment().unwrap() };
+    let lam = |lang: u8, spend: bool, body: &str| -> String { let v = if lang == 3 { "1.1.0" } else { "1.0.0" }; match (lang, spend) { (3, _) => format!("(program {v} (lam ctx {body}))"), (_, true) => format!("(program {v} (lam d (lam r (lam ctx {body}))))"), _ => format!("(program {v} (lam r (lam ctx {body})))") } };
+    let nargs = |lang: u8, spend: bool| if lang == 3 { 1 } else if spend { 3 } else { 2 };
+    let token = || NonEmptyKeyValuePairs::Def(vec![(Bytes::from(b"t".to_vec()), NonZeroInt::try_from(1).unwrap())]);
+    let mut out = vec![];
+    for lang in [1u8, 2, 3] {
+        // two mint policies of different cost
+        let a = compile(&lam(lang, false, "(con unit ())"));
+        let b = compile(&lam(lang, false, "[(lam x (con unit ())) [(builtin addInteger) (con integer 1) (con integer 2)]]"));
+        for declared in [(0u64, 0u64), (7, 9)] {
+            let mut body = body0();
+            body.inputs = Set::from(vec![oref(0)]);
+            body.outputs = vec![key_out(2_000_000)];
+            let mut pols = vec![(hash_of(lang, &a), token()), (hash_of(lang, &b), token())];
+            pols.sort_by(|x, y| x.0.cmp(&y.0));
+            body.mint = Some(NonEmptyKeyValuePairs::Def(pols));
+            let mut w = wit0();
+            put_scripts(&mut w, lang, &[a.clone(), b.clone()]);
+            let red = |ix: u32| Redeemer { tag: RedeemerTag::Mint, index: ix, data: Data::constr(0, vec![]), ex_units: ExUnits { mem: declared.0, steps: declared.1 } };
+            w.redeemer = Some(Redeemers::List(MaybeIndefArray::Def(vec![red(0), red(1)])));
+            out.push(BuiltTx { name: format!("two mint policies, PlutusV{lang}, declared units {declared:?}"), tx: finish(body, w), utxos: vec![ResolvedInput { input: oref(0), output: key_out(2_000_000) }], lang, direct: vec![(a.clone(), nargs(lang, false)), (b.clone(), nargs(lang, false))], must_fail: false });
+        }
+        // a policy whose builtin call is out of range: wraps under PlutusV1/V2 semantics, fails under PlutusV3's
+        let c = compile(&lam(lang, false, "[(lam x (con unit ())) [(builtin consByteString) (con integer 256) (con bytestring #)]]"));
+        let mut body = body0();
+        body.inputs = Set::from(vec![oref(0)]);
+        body.outputs = vec![key_out(2_000_000)];
+        body.mint = Some(NonEmptyKeyValuePairs::Def(vec![(hash_of(lang, &c), token())]));
+        let mut w = wit0();
+        put_scripts(&mut w, lang, &[c.clone()]);
+        w.redeemer = Some(Redeemers::List(MaybeIndefArray::Def(vec![Redeemer { tag: RedeemerTag::Mint, index: 0, data: Data::constr(0, vec![]), ex_units: ExUnits { mem: 0, steps: 0 } }])));
+        out.push(BuiltTx { name: format!("policy calling consByteString 256, PlutusV{lang}"), tx: finish(body, w), utxos: vec![ResolvedInput { input: oref(0), output: key_out(2_000_000) }], lang, direct: vec![(c.clone(), nargs(lang, false))], must_fail: lang == 3 });
+        if lang >= 2 {
+            // spend of a script-locked output with an inline datum; a second output of the same transaction is the collateral
+            let v = compile(&lam(lang, true, "(con unit ())"));
+            let mut addr = vec![0x70]; addr.extend(hash_of(lang, &v).as_ref());
+            let locked = TransactionOutput::PostAlonzo(PostAlonzoTransactionOutput { address: Bytes::from(addr), value: PValue::Coin(5_000_000), datum_option: Some(DatumOption::Data(CborWrap(Data::integer(42.into())))), script_ref: None });
+            let mut body = body0();
+            body.inputs = Set::from(vec![oref(0)]);
+            body.collateral = NonEmptySet::from_vec(vec![oref(1)]);
+            body.outputs = vec![key_out(4_000_000)];
+            let mut w = wit0();
+            put_scripts(&mut w, lang, &[v.clone()]);
+            w.redeemer = Some(Redeemers::List(MaybeIndefArray::Def(vec![Redeemer { tag: RedeemerTag::Spend, index: 0, data: Data::constr(0, vec![]), ex_units: ExUnits { mem: 0, steps: 0 } }])));
+            out.push(BuiltTx { name: format!("spend with inline datum + collateral from the same transaction, PlutusV{lang}"), tx: finish(body, w), utxos: vec![ResolvedInput { input: oref(0), output: locked }, ResolvedInput { input: oref(1), output: key_out(9_000_000) }], lang, direct: vec![(v.clone(), nargs(lang, true))], must_fail: false });
+        }
+    }
+    // withdrawals from a key account and a script account (PlutusV2): the script compares the purpose it is given with
+    // the ledger's encoding `Rewarding (StakingHash (ScriptCredential h))` = Constr 2 [Constr 0 [Constr 1 [B h]]], passed as redeemer
+    {
+        let purpose = "[(force (builtin headList)) [(force (builtin tailList)) [(force (force (builtin sndPair))) [(builtin unConstrData) ctx]]]]";
+        let code = compile(&format!("(program 1.0.0 (lam r (lam ctx (force [(force (builtin ifThenElse)) [(builtin equalsData) {purpose} r] (delay (con unit ())) (delay (error))]))))"));
+        let h = hash_of(2, &code);
+        let mut script_acct = vec![0xf0]; script_acct.extend(h.as_ref());
+        let mut key_acct = vec![0xe0]; key_acct.extend([0x22; 28]);
+        let expected = Data::constr(2, vec![Data::constr(0, vec![Data::constr(1, vec![Data::bytestring(h.as_ref().to_vec())])])]);
+        for ix in [0u32, 1] {
+            let mut body = body0();
+            body.inputs = Set::from(vec![oref(0)]);
+            body.outputs = vec![key_out(2_000_000)];
+            body.withdrawals = Some(NonEmptyKeyValuePairs::Def(vec![(Bytes::from(key_acct.clone()), 0), (Bytes::from(script_acct.clone()), 0)]));
+            let mut w = wit0();
+            put_scripts(&mut w, 2, &[code.clone()]);
+            w.redeemer = Some(Redeemers::List(MaybeIndefArray::Def(vec![Redeemer { tag: RedeemerTag::Reward, index: ix, data: expected.clone(), ex_units: ExUnits { mem: 0, steps: 0 } }])));
+            out.push(BuiltTx { name: format!("withdrawals from a key and a script account, PlutusV2, redeemer pointer {ix}"), tx: finish(body, w), utxos: vec![ResolvedInput { input: oref(0), output: key_out(2_000_000) }], lang: 2, direct: vec![], must_fail: ix == 1 });   // script credentials sort before key credentials (ledger's Ord on Credential): the script account is pointer 0
+        }
+    }
+    out
+}
 fn mode_txsim(_seed: u64, limit: usize) -> Vec<serde_json::Value> {
     use pallas_primitives::{conway::{CostModels, TransactionInput, TransactionOutput}, Fragment};
     use pallas_traverse::{Era, MultiEraTx};
@@ -970,6 +1056,73 @@ fn mode_txsim(_seed: u64, limit: usize) -> Vec<serde_json::Value> {
             Ok(Ok(())) => { n += 1; }
         }
     }
+    // ---- transactions built here: several redeemers, every language version, two resolved inputs of one transaction,
+    // withdrawals from a key and a script account
+    let built = built_txs();
+    let nb = built.len();
+    let mut nbuilt = 0;
+    for bt in built {
+        if fails.len() >= limit { break; }
+        let input = serde_json::json!({"transaction": format!("built: {}", bt.name)});
+        let r = std::panic::catch_unwind(std::panic::AssertUnwindSafe(|| -> Result<(), String> {
+            let met = MultiEraTx::decode_for_era(Era::Conway, &bt.tx).map_err(|e| format!("SKIP built transaction does not decode: {e}"))?;
+            let MultiEraTx::Conway(tx) = met else { return Err("SKIP".into()) };
+            let (v2c, v3c) = parse_cost_vectors();
+            let costs: Vec<i64> = match bt.lang { 1 => uplc::machine::cost_model::BuiltinCosts::DEFAULT_V1.to_vec(), 2 => v2c, _ => v3c };
+            if costs.is_empty() { return Err("SKIP no cost vector".into()); }
+            let cm = CostModels { plutus_v1: if bt.lang == 1 { Some(costs.clone()) } else { None }, plutus_v2: if bt.lang == 2 { Some(costs.clone()) } else { None }, plutus_v3: if bt.lang == 3 { Some(costs.clone()) } else { None } };
+            let big = ExBudget { mem: 14_000_000, cpu: 10_000_000_000 };
+            let sc = SlotConfig::default();
+            let run = |utxos: &[ResolvedInput], b: &ExBudget, phase_one: bool| eval_phase_two(&tx, utxos, Some(&cm), Some(b), &sc, phase_one, |_| ());
+            let units = |v: &Vec<(pallas_primitives::conway::Redeemer, uplc::machine::eval_result::EvalResult)>| -> Vec<(u64, u64)> { v.iter().map(|(r, _)| (r.ex_units.mem, r.ex_units.steps)).collect() };
+            let base = run(&bt.utxos, &big, false);
+            if bt.must_fail {
+                return match base { Ok(v) => Err(format!("a script that fails under its own language's builtin semantics is reported as succeeding with units {:?}", units(&v))), Err(_) => Ok(()) };
+            }
+            let base = base.map_err(|e| format!("a complete transaction whose scripts succeed is rejected: {e}"))?;
+            if !bt.direct.is_empty() && base.len() != bt.direct.len() { return Err(format!("{} redeemers evaluated, {} expected", base.len(), bt.direct.len())); }
+            // (1) units = cost of evaluating that script, applied to its arguments, under its own language and cost model
+            let lang = match bt.lang { 1 => Language::PlutusV1, 2 => Language::PlutusV2, _ => Language::PlutusV3 };
+            let mut want: Vec<(u64, u64)> = vec![];
+            for (code, nargs) in &bt.direct {
+                let mut buf = vec![];
+                let mut p: Program<NamedDeBruijn> = Program::<uplc::ast::FakeNamedDeBruijn>::from_cbor(code, &mut buf).map(Into::into).map_err(|e| format!("{e}"))?;
+                for _ in 0..*nargs { p = p.apply_data(uplc::ast::Data::integer(0.into())); }
+                let c = p.eval_as(&lang, &costs, Some(&big)).cost();
+                want.push((c.mem as u64, c.cpu as u64));
+            }
+            let mut got = units(&base); got.sort(); want.sort();
+            if !bt.direct.is_empty() && got != want { return Err(format!("reported units {got:?} differ from the evaluator's cost of the scripts {want:?}")); }
+            // (2) order of the resolved inputs
+            let mut rev = bt.utxos.clone(); rev.reverse();
+            match run(&rev, &big, false) {
+                Ok(v) => if units(&v) != units(&base) { return Err("with the resolved inputs reversed the units differ".into()); },
+                Err(e) => return Err(format!("with the resolved inputs reversed the simulation fails: {e}")),
+            }
+            // (3) budget hand-over
+            let total = base.iter().fold(ExBudget { mem: 0, cpu: 0 }, |a, (r, _)| ExBudget { mem: a.mem + r.ex_units.mem as i64, cpu: a.cpu + r.ex_units.steps as i64 });
+            match run(&bt.utxos, &total, false) {
+                Ok(v) => if units(&v) != units(&base) { return Err("with the exact total as budget the units change".into()); },
+                Err(e) => return Err(format!("a budget equal to the total of the reported units does not suffice: {e}")),
+            }
+            if run(&bt.utxos, &ExBudget { cpu: total.cpu - 1, mem: total.mem }, false).is_ok() { return Err("one cpu unit less than the total of the reported units still succeeds: redeemers are not charged against what the previous ones left".into()); }
+            if run(&bt.utxos, &ExBudget { cpu: total.cpu, mem: total.mem - 1 }, false).is_ok() { return Err("one memory unit less than the total of the reported units still succeeds".into()); }
+            if base.len() >= 2 {
+                let first = ExBudget { mem: base[0].0.ex_units.mem as i64, cpu: base[0].0.ex_units.steps as i64 };
+                if run(&bt.utxos, &first, false).is_ok() { return Err("a budget that only covers the first redeemer lets all of them succeed".into()); }
+            }
+            // (4) phase one agrees on a complete transaction
+            if let Err(e) = run(&bt.utxos, &big, true) { return Err(format!("phase one rejects a transaction that carries every script and redeemer it needs: {e}")); }
+            Ok(())
+        }));
+        match r {
+            Err(_) => fails.push(fail("txsim", "transaction simulation panicked", input, "units or an error".into(), "panic".into())),
+            Ok(Err(e)) if e.starts_with("SKIP") => {}
+            Ok(Err(e)) => { nbuilt += 1; fails.push(fail("txsim", "phase-two simulation is inconsistent", input, "units = evaluator cost under the script's language; input order irrelevant; budget handed over; phase one agrees".into(), e)) }
+            Ok(Ok(())) => { nbuilt += 1; }
+        }
+    }
+    println!("BOUNDS mode=txsim {nbuilt} of {nb} transactions built here (two mint policies per language V1/V2/V3 with declared units 0 and bogus; spend with inline datum + a second resolved input of the same transaction, V2/V3; a policy that fails only under V3 semantics; key + script withdrawals with the ledger's V2 purpose encoding): units = direct evaluation, reversed inputs, exact / -1 / first-only budgets, phase one on");
     println!("BOUNDS mode=txsim {n} of {} recorded transactions (crates/uplc/src/tx/tests.rs, read at run time): units = evaluator cost per redeemer; resolved inputs reversed / rotated; budget = exact total, total - 1 (cpu, mem), first redeemer only; repeated run", txs.len());
     fails
 }
